@@ -37,6 +37,10 @@ pub trait Machine: Sync + Send {
     fn dbg_twin(&self, _vals: &[u128], _alt: bool) -> Option<String> {
         None
     }
+    /// compile-time tables (C15)
+    fn const_tables(&self) -> Vec<ConstTable> {
+        Vec::new()
+    }
 }
 
 pub trait EnumMachine: Sync + Send {
@@ -50,6 +54,10 @@ pub trait EnumMachine: Sync + Send {
     fn raw_size(&self) -> usize;
     /// true when new_with_raw_value returns Result
     fn returns_result(&self) -> bool;
+    /// compile-time tables (C15)
+    fn const_tables(&self) -> Vec<ConstTable> {
+        Vec::new()
+    }
 }
 
 /// Copy the storage bytes of a generated object out as an integer (little endian host).
@@ -71,4 +79,19 @@ pub fn from_bits<T: Copy>(x: u128, proto: T) -> T {
     // pattern of which is a valid value
     unsafe { std::ptr::copy_nonoverlapping(b.as_ptr(), &mut o as *mut T as *mut u8, n) };
     o
+}
+
+/// A table computed by the compiler's const evaluator (a `static` initialiser) from the generated
+/// const fns, handed to the engine for comparison with the same calls executed at run time (C15).
+pub struct ConstTable {
+    /// raw | get | with | build | zero | default | enum_from | enum_to
+    pub kind: &'static str,
+    pub f: usize,
+    pub idx: usize,
+    pub states: &'static [u128],
+    pub values: &'static [u128],
+    /// flattened: states x values (values may be empty = 1 column)
+    pub table: &'static [u128],
+    /// for build: one argument tuple per row
+    pub args: &'static [&'static [u128]],
 }
